@@ -207,6 +207,7 @@ class Scope:
         self.self_class = self_class
         self.attr_alias: dict = {}  # (base atom, attr) -> Poly
         self.store: dict = {}  # canonical text of attribute / subscript locations -> Poly (per-path evaluation)
+        self.opaque_names: set = set()  # local names that are not to be inlined (kept as atoms)
 
 
 class NF:
@@ -392,6 +393,8 @@ class NF:
         return self.name(e.id, sc, at, depth)
 
     def name(self, name: str, sc: Scope, at: int | None, depth: int = 0) -> Poly:
+        if name in sc.opaque_names:
+            return Poly.atom(name, {name}, {name})
         cfg = sc.cfg
         defs = cfg.defs_of(at, name) if (cfg is not None and at is not None) else []
         if not defs:
